@@ -69,25 +69,66 @@ class C09(Check):
         limit = rng.choice([8 * bs, 40 * bs, 300 * bs, 1200 * bs])
         ops = []
         openst = [False] * len(types)
+        # block numbers at which earlier preallocations and punches of a file begin and end: later writes, reads and
+        # truncations are biased to land exactly there (first/last block of an extent, of a hole, of an uninit range)
+        marks = [[] for _ in types]
+
+        def at_mark(s):
+            m = rng.choice(marks[s]) * bs + rng.choice([0, 0, 0, -1, 1, -bs, bs, bs // 2])
+            return max(0, min(m, limit + 30 * bs))
+
+        def motif(s):
+            """preallocate, cut a hole out of the preallocation, preallocate the hole again, then touch the seams"""
+            a = rng.below(max(1, limit // bs))
+            n = rng.range(4, 24)
+            k0 = rng.range(1, n - 2)
+            m = rng.range(1, n - k0 - 1)
+            fl = rng.choice([0x4, 0x4, 0x4, 0x8 | 0x4, 0, 0x8])
+            seq = [["fa", s, fl, a, n]]
+            if rng.chance(0.7):
+                seq.append(["sz", s, (a + n) * bs - rng.choice([0, 0, 1, bs // 2])])
+            seq.append(["pu", s, a + k0, a + k0 + m - 1])
+            if rng.chance(0.8):
+                seq.append(["fa", s, rng.choice([fl, fl, 0x4, 0x8 | 0x4]), a + k0, m])
+            marks[s] += [a, a + k0, a + k0 + m, a + n]
+            for _ in range(rng.range(1, 4)):
+                seam = rng.choice([a, a + k0, a + k0 + m, a + k0 + m, a + n - 1, a + k0 - 1])
+                if rng.chance(0.7):
+                    seq.append(["wr", s, seam * bs + rng.choice([0, 0, 0, 1, bs // 2]), rng.choice([bs, 1, bs // 2, 2 * bs, 100])])
+                else:
+                    seq.append(["fl", s])
+                if rng.chance(0.3):
+                    seq.append(["fc", s])
+            seq.append(["rd", s, max(0, (a - 1) * bs), (n + 2) * bs])
+            return seq
+
         for _ in range(rng.range(10, 70)):
             s = rng.below(len(types))
+            if types[s] == "ext" and rng.chance(0.04):
+                ops += motif(s)
+                continue
             k = rng.weighted([("wr", 30), ("rd", 28), ("sz", 8), ("gs", 3), ("pu", 8), ("fa", 6), ("fl", 4), ("fc", 4), ("reopenfs", 2)])
+            use_mark = bool(marks[s]) and rng.chance(0.35)
             if k == "wr":
                 ln = rng.weighted([(rng.range(1, 100), 3), (rng.range(100, 2 * bs), 3), (rng.range(2 * bs, 20 * bs), 3), (bs, 1), (cluster, 1)])
-                ops.append(["wr", s, boundary_offset(rng, bs, cluster, limit), ln])
+                ops.append(["wr", s, at_mark(s) if use_mark else boundary_offset(rng, bs, cluster, limit), ln])
             elif k == "rd":
                 ln = rng.weighted([(rng.range(1, 200), 2), (rng.range(200, 4 * bs), 3), (rng.range(4 * bs, 40 * bs), 3), (limit + 4096, 2)])
-                ops.append(["rd", s, boundary_offset(rng, bs, cluster, limit) if rng.chance(0.7) else 0, ln])
+                ops.append(["rd", s, at_mark(s) if use_mark else (boundary_offset(rng, bs, cluster, limit) if rng.chance(0.7) else 0), ln])
             elif k == "sz":
-                ops.append(["sz", s, boundary_offset(rng, bs, cluster, limit)])
+                ops.append(["sz", s, at_mark(s) if use_mark else boundary_offset(rng, bs, cluster, limit)])
             elif k == "pu":
-                a = rng.below(limit // bs + 2)
-                ops.append(["pu", s, a, rng.choice([a, a + 1, a + rng.below(20), -1])])
+                a = rng.choice(marks[s]) if use_mark else rng.below(limit // bs + 2)
+                b = rng.choice([a, a + 1, a + rng.below(20), -1])
+                ops.append(["pu", s, a, b])
+                marks[s] += [a] + ([b + 1] if b >= 0 else [])
             elif k == "fa":
                 if types[s] == "inline":
                     continue
-                a = rng.below(limit // bs + 2)
-                ops.append(["fa", s, rng.choice(FA_FLAGS), a, rng.range(1, 24)])
+                a = rng.choice(marks[s]) if use_mark else rng.below(limit // bs + 2)
+                n = rng.range(1, 24)
+                ops.append(["fa", s, rng.choice(FA_FLAGS), a, n])
+                marks[s] += [a, a + n]
             else:
                 ops.append([k, s])
         return {"cfg": cfg, "types": types, "ops": ops, "data_seed": rng.u64(), "fill": rng.chance(0.2), "initial": rng.choice(["poison", "poison", "zero"])}
